@@ -31,6 +31,7 @@ def run(ctx):
         r1_stream(chk, fx, kind, b)
     r2_pump(chk, fx, TC.ssh_pump(fx))
     r3_propagation(chk, fx)
+    r4_session_recv(chk, fx)
 
 
 def zero_edges(b, count_locals):
@@ -241,3 +242,77 @@ def r3_propagation(chk, fx):
         all(A.is_res(p.ret) and p.ret[2] == "Ok" and "DEQUEUED" in A.vstr(p.ret) for p in some_)
     chk.instance("C07/R3", "ssh Receiver::recv: closed queue (None) is returned as Err(DequeueMessage)", b.name,
                  rc[0].loc() if rc else None, holds=ok, key="C07/R3 ssh::Receiver::recv none-not-error")
+
+
+# ---------------------------------------------------------------------------------------------
+CLOSE_KIND = {"Transport", "SshTransport", "TlsTransport", "DequeueMessage", "EnqueueMessage"}
+WAIT_OK = ("Mutex::lock", "ServerMsg::recv", "PartialReply::recv")
+
+
+def transport_error_variants(fx):
+    """Variants of netconf::Error a transport handle reports when the peer is gone: those built in a RecvHandle::recv / SendHandle::send
+    body, and those converted from the I/O, SSH, TLS and queue error types."""
+    out = set()
+    for name, b in fx.mir.items():
+        if b.crate != "netconf":
+            continue
+        handle = ("as netconf::transport::RecvHandle>::recv" in name or "as netconf::transport::SendHandle>::send" in name)
+        conv = name.startswith("<netconf::error::Error as std::convert::From<") and any(
+            x in name for x in ("std::io::Error", "russh::Error", "rustls::Error", "mpsc::error::SendError", "tokio::sync::mpsc"))
+        if not (handle or conv):
+            continue
+        for bl in b.blocks:
+            for s in bl["stmts"]:
+                if s["k"] == "assign" and s["rv"]["k"] == "agg" and s["rv"].get("adt") == "netconf::error::Error":
+                    out.add(s["rv"]["variant"])
+    return out
+
+
+def r4_session_recv(chk, fx):
+    """Session::recv is where every pending request waits.  (a) When the transport read fails with an error a closed transport
+    produces, the loop ends with Err: it is not retried (a closed transport fails again at once: busy loop) — decided on the explored
+    paths of one loop iteration, per error variant the path can still hold.  (b) The loop waits only for the two locks (released by
+    guard drop on every exit of their holder, the error exit included) and for the transport: any other wait needs a wake-up on the
+    error exit that nothing establishes."""
+    from vlib import absint as A
+    from . import c05
+    kinds = transport_error_variants(fx) | CLOSE_KIND
+    chk.extra["transport_error_variants"] = sorted(kinds)
+    chk.instance("C07/R4", "error variants of a closed transport identified (%s)" % ", ".join(sorted(kinds)), "netconf::error::Error", None,
+                 holds=CLOSE_KIND <= kinds and len(transport_error_variants(fx)) >= 2, key="C07/R4 transport-error-variants-not-found")
+    allv = None
+    for it in fx.item_list:
+        if it["kind"] == "Enum" and it["def"] == "netconf::error::Error":
+            allv = {v["name"] for v in it["variants"]}
+    if not allv:
+        raise F.AnchorLost("enum netconf::error::Error")
+    n = 0
+    for p in c05.explore_recv(fx, "Pending", "Pending"):
+        rk = [k for k, v in p.assume.items() if k.startswith("variant:") and "«READ»" in k and k.endswith(".await") and v == "Err"]
+        if not rk or p.end == "abort":
+            continue
+        n += 1
+        ek = rk[0] + "→Err.0"
+        known = p.assume.get(ek)
+        possible = {known} if known else allv - set(p.assume.get("not" + ek, ()))
+        if A.is_res(p.ret) and p.ret[2] == "Err" and p.end in ("return", "fallthrough"):
+            chk.instance("C07/R4", "Session::recv: failed transport read (%s) ends the wait with Err" % (known or "any other error"), c05.RECV_CO, None, holds=True)
+            continue
+        bad = sorted(possible & kinds)
+        chk.instance("C07/R4", "Session::recv: the read is retried only after errors a closed transport cannot produce", c05.RECV_CO, None,
+                     holds=not bad, key="C07/R4 Session::recv retries-after-transport-error",
+                     detail=None if not bad else "the loop goes round again (%s) when the read failed with %s: on a closed transport the read fails "
+                     "again at once, for ever" % (p.end, "/".join(bad)))
+    chk.floor("C07/R4 failing-read paths of Session::recv", n, 1)
+    # (b) what the loop waits for
+    b = fx.user_coroutine("netconf::session::Session::<T>::recv")
+    n = 0
+    for a in b.await_points():
+        n += 1
+        src = a.get("src")
+        what = src.name() if src is not None else ("a future of type %s" % (b.local_ty(F.op_base(a["poll"].args[0])) if a.get("poll") else "?"))
+        ok = src is not None and T.short(T.strip_generics(src.name()), 2) in WAIT_OK
+        chk.instance("C07/R4", "Session::recv waits for %s" % T.short(what, 2), b.name, src.loc() if src is not None else loc_of(a.get("sp")), holds=ok,
+                     key="C07/R4 Session::recv unaudited-wait %s" % T.short(T.strip_generics(what), 2),
+                     detail=None if ok else "nothing wakes this wait when the request that is reading the transport fails: the other pending requests hang")
+    chk.floor("C07/R4 await points of Session::recv", n, 3)
